@@ -18,7 +18,9 @@ UUID = rb"[0-9a-f]{8}-[0-9a-f]{4}-[0-9a-f]{4}-[0-9a-f]{4}-[0-9a-f]{12}"
 def make_assets(root):
     os.makedirs(os.path.join(root, "img", "deep"), exist_ok=True)
     files = {"one.png": PNG + b"1", "two.png": PNG + b"22", "img/three.png": PNG + b"333", "img/deep/four-four.png": PNG + b"4444",
-             "tiny.png": b"x", "three.png": b"abc", "style.css": b"body { margin: 0 }\n", "big.png": PNG + bytes(range(256)) * 40}
+             "tiny.png": b"x", "three.png": b"abc", "style.css": b"body { margin: 0 }\n", "big.png": PNG + bytes(range(256)) * 40,
+             # names as cameras and screenshot tools write them, an extension a packager may not know, and none at all
+             "IMG_0042.JPG": b"\xff\xd8\xff\xe0jpeg", "Screenshot_1.PNG": PNG + b"55555", "img/pic.webp": b"RIFFxxxxWEBP", "img/noext": PNG + b"6"}
     for n, c in files.items():
         with open(os.path.join(root, n), "wb") as f: f.write(c)
     return files
@@ -26,7 +28,7 @@ def make_assets(root):
 
 def gen_doc(rng, files):
     """document with images in known order; returns (text, image urls in document order incl. definitions used, has_css)"""
-    imgs = [n for n in files if n.endswith(".png")]
+    imgs = [n for n in files if n != "style.css"]
     blocks, meta = [], []
     if rng.random() < 0.6:
         meta.append("Title: %s" % rng.choice(["Plain", "R&D <draft>", "\"Quoted\" 'title'", "Ünï 日本"]))
@@ -131,6 +133,10 @@ def check_archive(fmt, data, doc, plain, have_dir, files):
             if have_dir:
                 for r in re.findall(rb'xlink:href="(Pictures/[^"]+)"', get("content.xml")):
                     if r.decode() not in names: bad.append(("asset-missing", "content.xml references %s which is not in the archive" % r.decode()))
+                    # (an OpenDocument consumer takes the members of the package from the manifest)
+                    elif r.decode() not in paths: bad.append(("odt-manifest", "content.xml references %s, which is in the archive but not listed in the manifest" % r.decode()))
+                for n in names:
+                    if n.startswith("Pictures/") and not n.endswith("/") and n not in paths: bad.append(("odt-manifest", "the archive contains %s, which the manifest does not list" % n))
     elif fmt == "bundlezip":
         for n in ("info.json", "text.markdown", "text.html"):
             if n not in names: bad.append(("member-missing", "%s missing from the TextBundle" % n))
